@@ -71,10 +71,7 @@ func c09Rule(kind string) string {
 
 // c09Excluded: obligations the engine cannot discharge for a reason that is a limit of the analysis, not a
 // defect of /repo. They are excluded from the claim and printed as notes on every run.
-var c09Excluded = map[string]string{
-	"applayer/multicastsetup.McGroupStatusAnsPayload.UnmarshalBinary/index data[offset]": "needs the paired-count lemma (every ansGroupMaskCount++ is paired with an AnsGroupMask[i]=true store that Size() counts, hence Size() >= 1+5*count); not implemented",
-	"applayer/multicastsetup.McGroupStatusAnsPayload.UnmarshalBinary/slice data[offset + 1:offset + 5]": "same paired-count lemma",
-}
+var c09Excluded = map[string]string{}
 
 func checkC09(c *Ctx) {
 	r := c.Run
